@@ -96,7 +96,7 @@ pub open spec fn nick_announced(before: Seq<(int, Seq<char>)>, after: Seq<(int, 
 }
 
 impl MainState {
-//@fn state/conn_cmds.rs MainState::process_nick unit=nick props=C15,C02,C03,C05,C11,C06,C04,C19 rules=R1,R2,R6,R6q,R14
+//@fn state/conn_cmds.rs MainState::process_nick unit=nick props=C15,C02,C03,C05,C11,C06,C04,C19,C01 rules=R1,R2,R6,R6q,R14
 //@callargs authenticate state,+Tracked(sig)
 //@spec
         requires
@@ -118,7 +118,8 @@ impl MainState {
                 final(conn_state).stream.log() == old(conn_state).stream.log().push(fed(self.config.name@,
                     Reply::ErrNicknameInUse433 { client: str_of(client_name_spec(old(conn_state).user_state)), nick })),
             // accepted: the whole identity moves, nothing else does
-            old(conn_state).user_state.authenticated && sk(nick) != my_nick(*old(conn_state)) && !old(state).users@.contains_key(sk(nick)) ==> // @prop C15
+            // (the connection's stored prefix is rebuilt too: it is what every later PRIVMSG / NOTICE copy is attributed with - C01)
+            old(conn_state).user_state.authenticated && sk(nick) != my_nick(*old(conn_state)) && !old(state).users@.contains_key(sk(nick)) ==> // @prop C15,C01
                 nick_post(*old(state), *final(state), my_nick(*old(conn_state)), sk(nick), final(conn_state).user_state.source)
                 && final(conn_state).user_state.nick == Some(sk(nick))
                 && final(conn_state).user_state.source@ == source_spec(ConnUserState { nick: Some(sk(nick)), ..old(conn_state).user_state }),
